@@ -13,12 +13,12 @@ open TraitsVerif
 /-- `filter` of a `FilteredTraitObserver`: `anytrait_filter` (`*`) or
 `MetadataFilter("tag")` (`+tag`). -/
 inductive Filter where
-  | any | meta
+  | anyTrait | metadata
   deriving DecidableEq, Repr
 
 def Filter.matches : Filter → Field → Bool
-  | .any, _ => true                      -- _anytrait_filter.py:15
-  | .meta, f => f.tagged                 -- _metadata_filter.py:32
+  | .anyTrait, _ => true                     -- _anytrait_filter.py:15
+  | .metadata, f => f.tagged                 -- _metadata_filter.py:32
 
 /-- The observers reachable through `traits.observation.api`.  `TraitAddedObserver`
 and `_RestrictedNamedTraitObserver` never occur inside a graph that is compared
